@@ -186,7 +186,7 @@ impl<'a> Exec<'a> {
         for x in g.iter_mut() {
             *x = x.clamp(0.0, 1.0);
         }
-        g.sort_by(|a, b| a.partial_cmp(b).unwrap());
+        g.sort_by(|a, b| a.total_cmp(b));
         g.dedup();
         g
     }
@@ -232,7 +232,28 @@ impl<'a> Exec<'a> {
     fn check_point(&mut self, d: &dyn DigDyn, a: &Agg) {
         let case = self.case;
         let s = self.sname;
+        // the very first read after the preceding inserts, rotating over the kinds of read
+        let first: Option<(u8, f64, f64)> = if a.n_ins == 0 {
+            None
+        } else {
+            let mid = a.min + (a.max - a.min) * 0.37;
+            Some(match self.step % 4 {
+                0 => (0, 1.0, d.quantile(1.0)),
+                1 => (1, a.max + (a.max.abs() + 1.0), d.cdf(a.max + (a.max.abs() + 1.0))),
+                2 => (1, mid, d.cdf(mid)),
+                _ => (0, 0.37, d.quantile(0.37)),
+            })
+        };
         self.check_aggregates(d, a, "check point");
+        if let Some((k, arg, r1)) = first {
+            let r2 = if k == 0 { d.quantile(arg) } else { d.cdf(arg) };
+            if r1.to_bits() != r2.to_bits() {
+                self.viol.push(v("C15", format!("tdigest/{}/read-not-repeatable", s), self.step,
+                    format!("{}({}) returned {} as the first read after an insert and {} after other reads (no insert in between)", if k == 0 { "quantile" } else { "cdf" }, arg, r1, r2)));
+                return;
+            }
+            self.stats.probe("first_read_after_insert_checked");
+        }
         if a.n_ins == 0 {
             self.check_empty(d, "C15", "check point");
             return;
@@ -263,7 +284,7 @@ impl<'a> Exec<'a> {
                     format!("{} centroids after {} unit-weight inserts with delta = {}", nc, n, case.delta)));
             }
             sorted = a.vals.iter().map(|t| t.0).collect();
-            sorted.sort_by(|x, y| x.partial_cmp(y).unwrap());
+            sorted.sort_by(|x, y| x.total_cmp(y));
         }
         let nf = n as f64;
         let le = |x: f64| sorted.partition_point(|&y| y <= x) as f64 / nf; // F(x)
@@ -330,7 +351,7 @@ impl<'a> Exec<'a> {
         for &val in qs.iter().step_by(8) {
             xs.push(val);
         }
-        xs.sort_by(|x, y| x.partial_cmp(y).unwrap());
+        xs.sort_by(|x, y| x.total_cmp(y));
         let mut prevc = f64::NEG_INFINITY;
         for &x in &xs {
             let cv = d.cdf(x);
@@ -386,7 +407,7 @@ impl<'a> Exec<'a> {
             let mut wsorted: Vec<(f64, f64)> = Vec::new();
             if !a.unit {
                 wsorted = a.vals.clone();
-                wsorted.sort_by(|x, y| x.0.partial_cmp(&y.0).unwrap());
+                wsorted.sort_by(|x, y| x.0.total_cmp(&y.0));
             }
             // values the digest cannot tell apart: centroid means carry up to kappa accumulated roundings
             let eps2 = 8.0 * tol_v;
@@ -479,13 +500,17 @@ impl<'a> Exec<'a> {
                         self.stats.fault("compact_by_read");
                         since_compact = 0;
                     }
+                    // the read is the first one after the preceding inserts: whatever it returns must be
+                    // what the same read returns again after other reads (no insert in between)
+                    let mut first: Option<(u8, f64, f64)> = None;
                     match kind {
                         0 => {
-                            let _ = d.quantile(pos.clamp(0.0, 1.0));
+                            let q = pos.clamp(0.0, 1.0);
+                            first = Some((0, q, d.quantile(q)));
                         }
                         1 => {
                             let x = if a.n_ins == 0 { pos } else { a.min + (a.max - a.min) * (pos * 1.2 - 0.1) };
-                            let _ = d.cdf(x);
+                            first = Some((1, x, d.cdf(x)));
                         }
                         2 => {
                             let _ = d.count();
@@ -506,6 +531,13 @@ impl<'a> Exec<'a> {
                         _ => {}
                     }
                     self.check_aggregates(d.as_ref(), &a, "read");
+                    if let Some((k, arg, r1)) = first {
+                        let r2 = if k == 0 { d.quantile(arg) } else { d.cdf(arg) };
+                        if r1.to_bits() != r2.to_bits() {
+                            self.viol.push(v("C15", format!("tdigest/{}/read-not-repeatable", self.sname), self.step,
+                                format!("{}({}) returned {} as the first read after an insert and {} after count()/sum()/mean() were read in between (no insert in between)", if k == 0 { "quantile" } else { "cdf" }, arg, r1, r2)));
+                        }
+                    }
                     since_compact = 0;
                 }
                 DOp::Check => {
@@ -593,14 +625,14 @@ fn gen_values(g: &mut Sm, n: usize) -> (Vec<f64>, String, bool, bool) {
             for _ in 0..n {
                 vals.push(g.f64());
             }
-            vals.sort_by(|a, b| a.partial_cmp(b).unwrap());
+            vals.sort_by(|a, b| a.total_cmp(b));
             ("uniform-sorted-arrival", false, true)
         }
         7 => {
             for _ in 0..n {
                 vals.push(g.normal());
             }
-            vals.sort_by(|a, b| b.partial_cmp(a).unwrap());
+            vals.sort_by(|a, b| b.total_cmp(a));
             ("normal-reverse-sorted-arrival", false, true)
         }
         8 => {
